@@ -680,6 +680,11 @@ def weave_fn(w, item_id, text, spec, log):
         anchor = p.get('after') or p.get('before')
         nth = p.get('nth', 1)
         idxs = [m.start() for m in re.finditer(re.escape(anchor), text)]
+        for alt in p.get('alt', []):
+            # alternative spelling of the same anchor statement (e.g. with / without `mut` on a binding)
+            if not idxs:
+                anchor = alt
+                idxs = [m.start() for m in re.finditer(re.escape(anchor), text)]
         if len(idxs) < nth:
             raise Undecided('%s: proof anchor %r (occurrence %d) not found' % (item_id, anchor, nth))
         if p.get('unique', True) and 'nth' not in p and len(idxs) != 1:
